@@ -59,14 +59,18 @@ def fetchLoopCall : Nat → List Attempt → Option (R (ApiVersionsState × Int 
     | .ok (err, vs) => some (.ok (handleApiVersionUpdate err vs, err, vs))
 
 /-- the PUBLIC `KafkaClient.fetch_api_versions()`, callable in any state.  The loop condition is
-    `self._api_versions is None and api_version_failures < 3`: once a discovery has ended (table or
-    fallback) the loop is not entered, `resp` is still `None`, and `ApiVersionResponse(-1, [])` is
-    handed to `_handle_api_version_update` and returned — the state becomes `0` and a table that
-    had been discovered is forgotten. -/
+    `self._api_versions is None and api_version_failures < 3`: once a discovery has ended the loop
+    is not entered and `resp` is still `None`; then
+    ```
+    elif self._api_versions:   return ApiVersionResponse(0, self._api_versions)
+    else:                      err = ApiVersionResponse(-1, []); self._handle_api_version_update(err); return err
+    ```
+    a discovered (non-empty) table is answered from and kept; `0` and the empty table end in `0`. -/
 def fetchApiVersionsCall (st : ApiVersionsState) (attempts : List Attempt) :
     Option (R (ApiVersionsState × Int × List ApiVersion)) :=
   match st with
   | .undiscovered => fetchLoopCall apiVersionAttempts attempts
+  | .table (v :: vs) => some (.ok (.table (v :: vs), 0, v :: vs))
   | _ => fetchLoopCall 0 attempts
 
 /-- the lookup of `get_api_version(key)` once the state is known -/
